@@ -982,6 +982,20 @@ impl Gen {
             self.pending_dump = true;
             return Some(Ev::Chunk(self.conn, gen::set_like(op::SET, &key, &v, f, t1).bytes()));
         }
+        if fl == "flush" && self.rng.chance(1, 8) {
+            // a quiet flush with requests pipelined right behind it in the same write: they are
+            // executed after it, in order — what they store is not touched by the flush
+            self.count("requests_pipelined_behind_a_quiet_flush");
+            self.scripted += 1;
+            let key = format!("qf{}", self.scripted).into_bytes();
+            let mut b = gen::flush(op::FLUSHQ, None).bytes();
+            b.extend_from_slice(&gen::set_like(op::SET, &key, b"after", 3, 0).bytes());
+            b.extend_from_slice(&Req::new(op::GET).key(&key).bytes());
+            b.extend_from_slice(&gen::set_like(op::SETQ, b"k1", b"after2", 0, 0).bytes());
+            b.extend_from_slice(&Req::new(op::GETK).key(b"k1").bytes());
+            self.pending_dump = true;
+            return Some(Ev::Chunk(self.conn, b));
+        }
         if fl == "flush" && self.rng.chance(1, 20) {
             // two delayed flushes around a store that leaves the number of bytes stored as it
             // was (an overwrite of equal size): the second flush covers it like any other
@@ -1035,17 +1049,21 @@ impl Gen {
             return Some(Ev::Chunk(self.conn, outer.bytes()));
         }
         if fl == "crowd" {
-            // many small records under a memory limit, now and then a large one: making room
-            // for it takes dozens of evictions
+            // many small records under a memory limit (the suites give a limit of 5/3 of the
+            // item limit), and at fixed places — after enough small ones to have filled the
+            // store — a large one under a key of its own: making room for what follows it
+            // takes dozens of evictions in one store
             self.scripted += 1;
+            let period = self.item_limit / 15 + 5;
             let r = self.rng.below(100);
-            let req = if r < 80 {
+            let req = if self.scripted % period == 0 {
+                self.count("crowd_large_record_into_a_full_store");
+                let n = (self.item_limit as usize).saturating_sub(1 + self.rng.below(40) as usize).max(16);
+                gen::set_like(op::SET, format!("big{}", self.scripted).as_bytes(), &vec![b'B'; n], 1, 0)
+            } else if r < 90 {
                 let key = format!("c{}", self.scripted).into_bytes();
                 let v = if self.rng.chance(1, 2) { vec![] } else { self.rng.bytes(2) };
                 gen::set_like(op::SET, &key, &v, 0, 0)
-            } else if r < 92 {
-                let n = (self.item_limit as usize * 3 / 4).max(16) + self.rng.below(40) as usize;
-                gen::set_like(op::SET, b"big", &vec![b'B'; n], 1, 0)
             } else {
                 let k = 1 + self.rng.below(self.scripted as u64) as u32;
                 Req::new(op::GET).key(format!("c{}", k).as_bytes())
